@@ -35,6 +35,8 @@ pub enum MemberProd {
     /// element (1,1) with an occurrence on the enclosing sequence
     SeqOcc { ty: usize, occ: usize },
     Attr { ty: usize, required: bool },
+    /// element with minOccurs="1" maxOccurs="1" written out, inside a sequence with an occurrence
+    ExplicitOne { ty: usize, occ: usize },
     Ref { target: &'static str, occ: usize },
 }
 
@@ -43,6 +45,7 @@ pub fn member_label(p: &MemberProd, types: &[(String, TypeRef)]) -> String {
         MemberProd::Elem { ty, occ, ctx } => format!("element type={} min={} max={} ctx={ctx}", types[*ty].0, OCCS[*occ].0, OCCS[*occ].1.label()),
         MemberProd::SeqOcc { ty, occ } => format!("element type={} in sequence min={} max={}", types[*ty].0, OCCS[*occ].0, OCCS[*occ].1.label()),
         MemberProd::Attr { ty, required } => format!("attribute type={} use={}", types[*ty].0, if *required { "required" } else { "optional" }),
+        MemberProd::ExplicitOne { ty, occ } => format!("element type={} explicit min=1 max=1 in sequence min={} max={}", types[*ty].0, OCCS[*occ].0, OCCS[*occ].1.label()),
         MemberProd::Ref { target, occ } => format!("ref={target} min={} max={}", OCCS[*occ].0, OCCS[*occ].1.label()),
     }
 }
@@ -93,6 +96,18 @@ pub fn apply_member(s: &mut SchemaSet, p: &MemberProd, types: &[(String, TypeRef
                 seq.items.push(Particle::Seq(Seq { min: OCCS[*occ].0, max: OCCS[*occ].1, items: vec![el(&name, types[*ty].1.clone())] }));
             }
         }
+        MemberProd::ExplicitOne { ty, occ } => {
+            let mut e = Elem::new(&name, types[*ty].1.clone());
+            e.explicit = true;
+            let seq = h.seq.as_mut().unwrap();
+            if seq.items.is_empty() {
+                seq.min = OCCS[*occ].0;
+                seq.max = OCCS[*occ].1;
+                seq.items.push(Particle::Elem(e));
+            } else {
+                seq.items.push(Particle::Seq(Seq { min: OCCS[*occ].0, max: OCCS[*occ].1, items: vec![Particle::Elem(e)] }));
+            }
+        }
         MemberProd::Attr { ty, required } => h.attrs.push(Attr { name: format!("attr{k}"), ty: types[*ty].1.clone(), required: *required }),
         MemberProd::Ref { target, occ } => {
             let ns = if target.ends_with("B") { NS_B } else { NS_A };
@@ -127,6 +142,14 @@ pub fn member_productions(types: &[(String, TypeRef)], reduced: bool) -> Vec<Mem
             }
         }
     }
+    for &t in &tys {
+        for &o in &occs {
+            if reduced && o != 4 {
+                continue;
+            }
+            v.push(MemberProd::ExplicitOne { ty: t, occ: o });
+        }
+    }
     for (i, (l, _)) in types.iter().enumerate() {
         if l.starts_with("complex") {
             continue;
@@ -149,6 +172,30 @@ pub fn member_productions(types: &[(String, TypeRef)], reduced: bool) -> Vec<Mem
     v
 }
 
+
+/// component-level productions: each kind once in A and once in B
+pub fn component_states() -> Vec<State> {
+    let mut out = vec![];
+    for (file, ns, tag) in [(0usize, NS_A, "A"), (1usize, NS_B, "B")] {
+        let comps: Vec<(String, Comp)> = vec![
+            (format!("add complexType in {tag}"), complex(&format!("Extra{tag}"), vec![el("X", TypeRef::b("int"))])),
+            (format!("add simpleType in {tag}"), simple(&format!("ExtraCode{tag}"), "string", vec![("minLength", "1")])),
+            (format!("add anonymous global element in {tag}"), anon_element(&format!("ExtraElement{tag}"), vec![el("Y", TypeRef::b("string"))])),
+            (format!("add typed global element in {tag}"), typed_element(&format!("ExtraTyped{tag}"), TypeRef::n(ns, if file == 0 { "Leaf" } else { "LeafB" }))),
+            (format!("add builtin-typed global element in {tag}"), typed_element(&format!("ExtraBuiltin{tag}"), TypeRef::b("string"))),
+            // a global element spelled differently from its type but with the same PascalCase form / the same spelling
+            (format!("add typed global element named like its type (other case) in {tag}"), typed_element(if file == 0 { "leaf" } else { "leafB" }, TypeRef::n(ns, if file == 0 { "Leaf" } else { "LeafB" }))),
+            (format!("add typed global element named exactly like its type in {tag}"), typed_element(if file == 0 { "Leaf" } else { "LeafB" }, TypeRef::n(ns, if file == 0 { "Leaf" } else { "LeafB" }))),
+        ];
+        for (label, c) in comps {
+            let mut s = seed();
+            s.files[file].comps.push(c);
+            out.push(State { label, depth: 1, set: s });
+        }
+    }
+    out
+}
+
 pub fn states(tier: &str) -> Vec<State> {
     let types = type_alphabet();
     let mut out = vec![State { label: "seed".into(), depth: 0, set: seed() }];
@@ -158,21 +205,7 @@ pub fn states(tier: &str) -> Vec<State> {
         apply_member(&mut s, p, &types, 1);
         out.push(State { label: member_label(p, &types), depth: 1, set: s });
     }
-    // component-level productions: each kind once in A and once in B
-    for (file, ns, tag) in [(0usize, NS_A, "A"), (1usize, NS_B, "B")] {
-        let comps: Vec<(String, Comp)> = vec![
-            (format!("add complexType in {tag}"), complex(&format!("Extra{tag}"), vec![el("X", TypeRef::b("int"))])),
-            (format!("add simpleType in {tag}"), simple(&format!("ExtraCode{tag}"), "string", vec![("minLength", "1")])),
-            (format!("add anonymous global element in {tag}"), anon_element(&format!("ExtraElement{tag}"), vec![el("Y", TypeRef::b("string"))])),
-            (format!("add typed global element in {tag}"), typed_element(&format!("ExtraTyped{tag}"), TypeRef::n(ns, if file == 0 { "Leaf" } else { "LeafB" }))),
-            (format!("add builtin-typed global element in {tag}"), typed_element(&format!("ExtraBuiltin{tag}"), TypeRef::b("string"))),
-        ];
-        for (label, c) in comps {
-            let mut s = seed();
-            s.files[file].comps.push(c);
-            out.push(State { label, depth: 1, set: s });
-        }
-    }
+    out.extend(component_states());
     if tier == "thorough" {
         let red = member_productions(&types, true);
         for a in &red {
@@ -180,8 +213,8 @@ pub fn states(tier: &str) -> Vec<State> {
                 // outside the subset (DESIGN section 2): an occurrence on an OUTER sequence combined with a
                 // nested sequence / choice (occurrences sit on the element and its immediately enclosing
                 // sequence only); two refs to one global element in one type (duplicate member names)
-                let a_outer = matches!(a, MemberProd::SeqOcc { .. });
-                let b_inner = matches!(b, MemberProd::SeqOcc { .. }) || matches!(b, MemberProd::Elem { ctx, .. } if *ctx != "sequence");
+                let a_outer = matches!(a, MemberProd::SeqOcc { .. } | MemberProd::ExplicitOne { .. });
+                let b_inner = matches!(b, MemberProd::SeqOcc { .. } | MemberProd::ExplicitOne { .. }) || matches!(b, MemberProd::Elem { ctx, .. } if *ctx != "sequence");
                 if a_outer && b_inner {
                     continue;
                 }
